@@ -42,6 +42,9 @@ func verifies(s base.Sign, fact base.Fact) bool {
 // oracle: the statement of C17 on the implementation's observables.
 func oracle(c *sim.Case, order []int, obs *sim.Obs) (fs []failure) {
 	if obs.Err != "" {
+		if c.AllSkipped() {
+			return nil // Writer.Manifest refuses a proposal none of whose operations got a slot ("empty nodes"): no block, no suffrage change
+		}
 		return []failure{{"process-error", obs.Err}}
 	}
 	entries := make([]sim.Op, 0, len(order)+len(obs.ExpelOrder))
@@ -226,13 +229,44 @@ func main() {
 	apiChecks(g, res)
 
 	// ---------------------------------------------------------------- blocks
+	// phase 1 (sequential, all randomness): cases, orders, worker sizes; phase 2 (parallel): the runs;
+	// phase 3 (sequential): oracle, order comparison, model cases.
 	nblocks := o.Pick(450, 9000)
 	t0 := time.Now()
-	for ci := 0; ci < nblocks; ci++ {
+	type job struct {
+		c      *sim.Case
+		orders [][]int
+		sched  []sim.Sched
+		obs    []sim.Obs
+	}
+	jobs := make([]*job, nblocks)
+	for ci := range jobs {
 		c := g.RandomCase(res, false)
+		j := &job{c: c, orders: [][]int{c.Identity()}}
+		if len(c.Ops) > 1 {
+			j.orders = append(j.orders, r.Perm(len(c.Ops)))
+			rev := make([]int, len(c.Ops)) // reversal: the order most likely to flip "first wins" decisions
+			for i := range rev {
+				rev[i] = len(c.Ops) - 1 - i
+			}
+			j.orders = append(j.orders, rev)
+		}
+		for range j.orders {
+			j.sched = append(j.sched, sim.Sched{Workers: int64(1 + r.Intn(8))})
+		}
+		j.obs = make([]sim.Obs, len(j.orders))
+		jobs[ci] = j
+	}
+	tgen := time.Since(t0)
+	vh.Parallel(len(jobs), 6, func(ci int) {
+		j := jobs[ci]
+		for k := range j.orders {
+			j.obs[k] = j.c.Run(j.orders[k], j.sched[k])
+		}
+	})
+	for ci, j := range jobs {
+		c, order, obs := j.c, j.orders[0], &j.obs[0]
 		nm := c.Names()
-		order := c.Identity()
-		obs := c.Run(order, sim.Sched{Workers: int64(1 + r.Intn(8))})
 		verbose := rp != nil && rp.Case == ci
 		if verbose {
 			fmt.Printf("case %d\n env  = %s\n ops  = %s\n impl = %s\n err=%q\n", ci, c.CoqEnv(nm), c.CoqOps(nm, order, obs.ExpelOrder), obs.CoqOutcome(nm), obs.Err)
@@ -249,44 +283,35 @@ func main() {
 		} else {
 			res.Dist("suffrage-unchanged")
 		}
-		for _, f := range oracle(c, order, &obs) {
+		for _, f := range oracle(c, order, obs) {
 			res.Fail(f.class, fmt.Sprintf("case %d: %s", ci, f.desc), replay{o.Seed, o.Tier, ci, nil, f.desc})
 			if verbose {
 				fmt.Printf(" ORACLE FAIL %s: %s\n", f.class, f.desc)
 			}
 		}
-		cases.Add(fmt.Sprintf("CBlock %s %s %s", c.CoqEnv(nm), c.CoqOps(nm, order, obs.ExpelOrder), obs.CoqOutcome(nm)), c.Describe(nm, order, &obs))
+		cases.Add(fmt.Sprintf("CBlock %s %s %s", c.CoqEnv(nm), c.CoqOps(nm, order, obs.ExpelOrder), obs.CoqOutcome(nm)), c.Describe(nm, order, obs))
 		if ci < 3 {
-			res.Sample(c.Describe(nm, order, &obs))
+			res.Sample(c.Describe(nm, order, obs))
 		}
 		// order independence: the same operations in other orders give the same suffrage
-		if len(c.Ops) > 1 {
-			for k := 0; k < 2; k++ {
-				perm := r.Perm(len(c.Ops))
-				if k == 1 {
-					// reversal: the order most likely to flip "first wins" decisions
-					for i := range perm {
-						perm[i] = len(c.Ops) - 1 - i
-					}
+		for k := 1; k < len(j.orders); k++ {
+			perm, obs2 := j.orders[k], &j.obs[k]
+			res.Evaluations++
+			for _, f := range oracle(c, perm, obs2) {
+				res.Fail(f.class, fmt.Sprintf("case %d (permuted): %s", ci, f.desc), replay{o.Seed, o.Tier, ci, perm, f.desc})
+			}
+			if a, b := sufKey(obs), sufKey(obs2); a != b {
+				res.Fail("suffrage-depends-on-operation-order", fmt.Sprintf("case %d: order %v gives %s, proposal order gives %s", ci, perm, b, a), replay{o.Seed, o.Tier, ci, perm, "order"})
+				if verbose {
+					fmt.Printf(" ORDER DEPENDENT: %v\n  %s\n  %s\n", perm, a, b)
 				}
-				obs2 := c.Run(perm, sim.Sched{Workers: int64(1 + r.Intn(8))})
-				res.Evaluations++
-				for _, f := range oracle(c, perm, &obs2) {
-					res.Fail(f.class, fmt.Sprintf("case %d (permuted): %s", ci, f.desc), replay{o.Seed, o.Tier, ci, perm, f.desc})
-				}
-				if a, b := sufKey(&obs), sufKey(&obs2); a != b {
-					res.Fail("suffrage-depends-on-operation-order", fmt.Sprintf("case %d: order %v gives %s, proposal order gives %s", ci, perm, b, a), replay{o.Seed, o.Tier, ci, perm, "order"})
-					if verbose {
-						fmt.Printf(" ORDER DEPENDENT: %v\n  %s\n  %s\n", perm, a, b)
-					}
-				}
-				if k == 0 && ci%3 == 0 {
-					cases.Add(fmt.Sprintf("CBlock %s %s %s", c.CoqEnv(nm), c.CoqOps(nm, perm, obs2.ExpelOrder), obs2.CoqOutcome(nm)), c.Describe(nm, perm, &obs2))
-				}
+			}
+			if k == 1 && ci%3 == 0 {
+				cases.Add(fmt.Sprintf("CBlock %s %s %s", c.CoqEnv(nm), c.CoqOps(nm, perm, obs2.ExpelOrder), obs2.CoqOutcome(nm)), c.Describe(nm, perm, obs2))
 			}
 		}
 	}
-	res.Note(fmt.Sprintf("blocks: %d in %.1fs", nblocks, time.Since(t0).Seconds()))
+	res.Note(fmt.Sprintf("blocks: %d in %.1fs (generate+sign %.1fs)", nblocks, time.Since(t0).Seconds(), tgen.Seconds()))
 	res.ModelCases = cases.Len()
 	if err := cases.Write(o.Out); err != nil {
 		panic(err)
